@@ -400,12 +400,8 @@ class Logbook(list):
         if isinstance(key, slice):
             for i in sorted(range(*key.indices(len(self))), reverse=True):
                 self.pop(i)
-                for chapter in self.chapters.values():
-                    chapter.pop(i)
         else:
             self.pop(key)
-            for chapter in self.chapters.values():
-                chapter.pop(key)
 
     def pop(self, index=0):
         """Retrieve and delete element *index*. The header and stream will be
@@ -423,6 +419,8 @@ class Logbook(list):
         position = index + len(self) if index < 0 else index
         if 0 <= position < self.buffindex:
             self.buffindex -= 1
+        for chapter in self.chapters.values():
+            chapter.pop(index)
         return super(self.__class__, self).pop(index)
 
     def __txt__(self, startindex):
